@@ -43,7 +43,7 @@ FLOORS = {'C01': 76, 'C02': 72, 'C03': 81, 'C04': 65, 'C05': 60, 'C06': 56, 'C07
 
 
 def check(ctx, rep, prop):
-    rid = 'R%s.cmp' % prop[1:]
+    rid = 'R%s.bound' % prop[1:]
     rep.rule(rid, 'comparisons keep their operator: where a function still compares the same two operands as on the pinned tree, the boundary has not moved (`<` not turned into `<=`, `>` not into `>=`; a test and its negation count as the same test); pairs that are gone or new are not judged', floor=FLOORS.get(prop), analysis='A20')
     n = 0
     for fn, pairs in sorted(frozen().items()):
